@@ -78,6 +78,10 @@ func (u *Unit) Discharge(ctx context.Context, ro RunOpts, stats map[string]*Solv
 		el      time.Duration
 	}
 	fast := Solvers(fastMs, ro.Seed)
+	if ro.Tier != "thorough" {
+		// quick tier: the primary solver alone; whatever it leaves open is raced on all solvers below
+		fast = fast[:1]
+	}
 	prs := make([]passRes, len(fast))
 	var wg1 sync.WaitGroup
 	for i, s := range fast {
